@@ -758,7 +758,7 @@ static Boolean GetSymSection(char* Name, LongInt* Erg, tStrComp const* pUnexpCom
     char*    q;
     int      l = strlen(Name);
 
-    if (Name[l - 1] != ']') {
+    if (!l || (Name[l - 1] != ']')) {
         *Erg = -2;
         return True;
     }
@@ -766,7 +766,7 @@ static Boolean GetSymSection(char* Name, LongInt* Erg, tStrComp const* pUnexpCom
     Name[l - 1] = '\0';
     q           = RQuotPos(Name, '[');
     Name[l - 1] = ']';
-    if (Name + l - q <= 1) {
+    if (!q || (Name + l - q <= 1)) {
         if (pUnexpComp) {
             WrStrErrorPos(ErrNum_InvSymName, pUnexpComp);
         } else {
